@@ -1,10 +1,10 @@
 #!/usr/bin/env python3
 """Regenerates MANIFEST.json from props.py (run after editing props.py)."""
 import json, os, subprocess
-from props import PROPS, PROOF_NOTE
+from proptable import PROPS, PROOF_NOTE
 HERE = os.path.dirname(os.path.abspath(__file__))
 NOT_APPLICABLE = json.load(open(os.path.join(HERE, "not_applicable.json")))
-hooks = subprocess.run(["git", "-C", "/repo", "log", "--format=%H %s"], capture_output=True, text=True).stdout.splitlines()
+hooks = subprocess.run(["git", "-C", os.environ.get("VERIF_REPO", "/repo"), "log", "--format=%H %s"], capture_output=True, text=True).stdout.splitlines()
 hook_commits = [l.split()[0] for l in hooks if " verif:" in l or l.split(" ", 1)[1].startswith("verif")]
 all_ids = [json.loads(l)["id"] for l in open(os.path.join(HERE, "properties.jsonl"))]
 checks = []
